@@ -30,20 +30,20 @@ __CPROVER_ensures(g_st_calls == OLD(g_st_calls) + 1 && g_st_code == (uint16_t) s
 #define SETVER_RV(vers) (((vers) == NULL || VERS_KNOWN(vers)) ? 0 : NNG_ENOTSUP)
 int nni_http_set_version(nng_http *conn, const char *vers)
 __CPROVER_requires(conn != NULL)
-__CPROVER_assigns(conn->vers, g_ver_calls, g_ver_arg)
-__CPROVER_ensures(RV == SETVER_RV(vers))
+__CPROVER_assigns(conn->vers, g_ver_calls, g_ver_arg, g_ver_rv)
+__CPROVER_ensures(RV == SETVER_RV(vers) && g_ver_rv == RV)
 __CPROVER_ensures(g_ver_calls == OLD(g_ver_calls) + 1 && g_ver_arg == vers)
 ;
 
 void nni_http_set_method(nng_http *conn, const char *method)
 __CPROVER_requires(conn != NULL)
-__CPROVER_assigns(conn->meth, g_meth_calls, g_meth_arg)
+__CPROVER_assigns(g_meth_calls, g_meth_arg)
 __CPROVER_ensures(g_meth_calls == OLD(g_meth_calls) + 1 && g_meth_arg == method)
 ;
 
 nng_err nni_http_set_uri(nng_http *conn, const char *uri, const char *query)
 __CPROVER_requires(conn != NULL && uri != NULL)
-__CPROVER_assigns(conn->uri, conn->ubuf, g_uri_calls, g_uri_arg, g_uri_query, g_uri_rv)
+__CPROVER_assigns(conn->uri, g_uri_calls, g_uri_arg, g_uri_query, g_uri_rv)
 __CPROVER_ensures(g_uri_calls == OLD(g_uri_calls) + 1 && g_uri_arg == uri && g_uri_query == query)
 __CPROVER_ensures(RV == g_uri_rv && (g_uri_rv == 0 || g_uri_rv == NNG_ENOMEM))
 ;
@@ -81,19 +81,19 @@ __CPROVER_ensures(g_hdr_err == (OLD(g_hdr_err) != 0 ? OLD(g_hdr_err) : g_add_rv)
 	__CPROVER_requires(g_s1 + 1 <= g_n ==> g_d1 == (uint8_t) LN[g_s1 + 1]) \
 	__CPROVER_requires(g_s1 + 2 <= g_n ==> g_d2 == (uint8_t) LN[g_s1 + 2]) \
 	__CPROVER_requires(g_s1 + 3 <= g_n ==> g_d3 == (uint8_t) LN[g_s1 + 3]) \
-	__CPROVER_requires(g_k <= g_n ==> g_b == (uint8_t) LN[g_k])
+	__CPROVER_requires(g_k <= HL_CAP ==> g_b == (uint8_t) LN[g_k])
 
 static nng_err http_res_parse_line(nng_http *conn, uint8_t *line)
 __CPROVER_requires(__CPROVER_is_fresh(conn, sizeof(*conn)))
 TWO_SP_PRE
 __CPROVER_assigns(__CPROVER_object_whole(line), conn->code, conn->rsn, conn->vers)
-__CPROVER_assigns(g_st_calls, g_st_code, g_st_reason, g_ver_calls, g_ver_arg)
+__CPROVER_assigns(g_st_calls, g_st_code, g_st_reason, g_ver_calls, g_ver_arg, g_ver_rv)
 /* RFC 9110: status-code = 3DIGIT */
 __CPROVER_ensures(RV == 0 ==> RES_WELL)
 __CPROVER_ensures(RES_WELL ==> (g_st_calls == OLD(g_st_calls) + 1 && g_st_code == RES_CODE && conn->code == RES_CODE && g_st_reason == LN + g_s2 + 1))
 __CPROVER_ensures(RES_WELL ==> (g_ver_calls == OLD(g_ver_calls) + 1 && g_ver_arg == LN && RV == SETVER_RV(LN)))
 __CPROVER_ensures(RES_WELL ==> (LN[g_s1] == 0 && LN[g_s2] == 0))
-__CPROVER_ensures((RES_WELL && g_k <= g_n && g_k != g_s1 && g_k != g_s2) ==> (uint8_t) LN[g_k] == g_b)
+__CPROVER_ensures((RES_WELL && g_k <= HL_CAP && g_k != g_s1 && g_k != g_s2) ==> (uint8_t) LN[g_k] == g_b)
 __CPROVER_ensures(!RES_WELL ==> (RV == NNG_EPROTO && g_st_calls == OLD(g_st_calls) && g_ver_calls == OLD(g_ver_calls) && conn->code == OLD(conn->code)))
 COVER(RV == 0) COVER(RV == NNG_ENOTSUP) COVER(RV == NNG_EPROTO && g_s2 < g_n)
 ;
@@ -143,7 +143,8 @@ COVER(RV == 0 && g_v1 < g_n && g_v0 > g_c + 1) COVER(RV == NNG_ENOMEM) COVER(RV 
  *   status already >= 400 => nothing is touched, result 0;
  *   not (1*method SP 1*target SP ...) => 400;
  *   target refused by the URI canonifier => 400;
- *   version not one nng knows => 505;
+ *   version not one nng knows (g_ver_rv = result of the version store, which
+ *   is 0 exactly for the five known strings) => 505;
  *   otherwise method = bytes before the first SP, target = the (canonified)
  *   bytes between the first and second SP, handed over exactly; result =
  *   result of the target store (NNG_ENOMEM possible).
@@ -154,8 +155,8 @@ COVER(RV == 0 && g_v1 < g_n && g_v0 > g_c + 1) COVER(RV == NNG_ENOMEM) COVER(RV 
 static nng_err http_req_parse_line(nng_http *conn, void *line)
 __CPROVER_requires(__CPROVER_is_fresh(conn, sizeof(*conn)))
 TWO_SP_PRE
-__CPROVER_assigns(__CPROVER_object_whole(line), conn->code, conn->rsn, conn->vers, conn->meth, conn->uri, conn->ubuf)
-__CPROVER_assigns(g_st_calls, g_st_code, g_st_reason, g_ver_calls, g_ver_arg, g_meth_calls, g_meth_arg, g_uri_calls, g_uri_arg, g_uri_query, g_uri_rv, g_canon_calls, g_canon_rv)
+__CPROVER_assigns(__CPROVER_object_whole(line), conn->code, conn->rsn, conn->vers, conn->uri)
+__CPROVER_assigns(g_st_calls, g_st_code, g_st_reason, g_ver_calls, g_ver_arg, g_ver_rv, g_meth_calls, g_meth_arg, g_uri_calls, g_uri_arg, g_uri_query, g_uri_rv, g_canon_calls, g_canon_rv)
 __CPROVER_ensures(OLD(conn->code) >= 400 ==> (RV == 0 && g_st_calls == OLD(g_st_calls) && REQ_NOSTORE && g_ver_calls == OLD(g_ver_calls) && conn->code == OLD(conn->code)))
 __CPROVER_ensures((OLD(conn->code) >= 400 && g_k <= HL_CAP) ==> (uint8_t) LN[g_k] == g_b)
 /* malformed request-line: 400, nothing stored */
@@ -163,8 +164,8 @@ __CPROVER_ensures((OLD(conn->code) < 400 && !REQ_WELL) ==> (RV == 0 && REQ_STATU
 /* well-formed: canonifier called once on the target */
 __CPROVER_ensures((OLD(conn->code) < 400 && REQ_WELL) ==> (g_canon_calls == OLD(g_canon_calls) + 1 && LN[g_s1] == 0 && LN[g_s2] == 0))
 __CPROVER_ensures((OLD(conn->code) < 400 && REQ_WELL && g_canon_rv != 0) ==> (RV == 0 && REQ_STATUS(NNG_HTTP_STATUS_BAD_REQUEST) && REQ_NOSTORE))
-__CPROVER_ensures((OLD(conn->code) < 400 && REQ_WELL && g_canon_rv == 0 && !VERS_KNOWN(LN + g_s2 + 1)) ==> (RV == 0 && REQ_STATUS(NNG_HTTP_STATUS_HTTP_VERSION_NOT_SUPP) && REQ_NOSTORE))
-__CPROVER_ensures((OLD(conn->code) < 400 && REQ_WELL && g_canon_rv == 0 && VERS_KNOWN(LN + g_s2 + 1)) ==>
+__CPROVER_ensures((OLD(conn->code) < 400 && REQ_WELL && g_canon_rv == 0 && g_ver_rv != 0) ==> (RV == 0 && REQ_STATUS(NNG_HTTP_STATUS_HTTP_VERSION_NOT_SUPP) && REQ_NOSTORE))
+__CPROVER_ensures((OLD(conn->code) < 400 && REQ_WELL && g_canon_rv == 0 && g_ver_rv == 0) ==>
     (g_st_calls == OLD(g_st_calls) && g_meth_calls == OLD(g_meth_calls) + 1 && g_meth_arg == LN &&
      g_uri_calls == OLD(g_uri_calls) + 1 && g_uri_arg == LN + g_s1 + 1 && g_uri_query == NULL && RV == g_uri_rv &&
      g_ver_calls == OLD(g_ver_calls) + 1 && g_ver_arg == LN + g_s2 + 1))
